@@ -2467,7 +2467,10 @@ class RedunBackendDb(RedunBackend):
         current_call_nodes = [
             call_node
             for call_node in call_nodes
-            if call_node2task_hashes[call_node.call_hash] <= scheduler_task_hashes
+            # A CallNode without recorded subtree tasks (imported, or its recording was interrupted)
+            # is never current: the empty set would be a subset of anything.
+            if call_node2task_hashes[call_node.call_hash]
+            and call_node2task_hashes[call_node.call_hash] <= scheduler_task_hashes
         ]
 
         if current_call_nodes:
